@@ -4,9 +4,10 @@
 mod c03;
 mod c05;
 mod c15;
+mod c16;
 mod cek;
-mod gen;
 mod driver;
+mod gen;
 mod prng;
 mod report;
 mod wire;
@@ -55,6 +56,8 @@ fn main() {
         "c15-names" => c15::names(&ctx),
         "c03-cek" => c03::run(&ctx),
         "c05-budget" => c05::run(&ctx),
+        "c16-shrink" => c16::shrink(&ctx),
+        "c16-e2e" => c16::e2e(&ctx),
         other => {
             eprintln!("unknown sub-command {other}");
             std::process::exit(2);
